@@ -582,5 +582,5 @@ PROPERTIES = {
             "Structural necessary conditions of block rendering, one per hand-over point the property is anchored in: (a) format_line starts every top-level logical line with a forced break at "
             "(level indentations, 0 continuations), except the first line of the file; (b) Decision::Break becomes >= 1 line break at the solution's indentation, Decision::Continue none; "
             "(c) begin_style=Always_Wrap <-> break_before_begin=true, read only where the break before the first child line is decided; (d) every finished logical line gets the level "
-            "computed by get_context_level() and the next line starts at it; (e) a skip over a parenthesised group does not wait for the (not yet classified) chevrons to balance. Which tokens form a statement and the level arithmetic of the context stack are NOT decided. Added in round 6: (f) between parse_structures() and the pop of the level-adding context it ran under, finish_logical_line() is called; (g) after every type-introducing token (=, :, to, of) procedure/function goes to parse_routine_header; (h) every post-semicolon directive site looks at the token behind the word first.", []),
+            "computed by get_context_level() and the next line starts at it; (e) a skip over a parenthesised group does not wait for the (not yet classified) chevrons to balance. Which tokens form a statement and the level arithmetic of the context stack are NOT decided. Added in round 6: (f) between parse_structures() and the pop of the level-adding context it ran under, finish_logical_line() is called; (g) after every type-introducing token (=, :, to, of) procedure/function goes to parse_routine_header; (h) every post-semicolon directive site looks at the token behind the word first. Added in round 7: (i) skip_pair is applied to a `(` only at reviewed sites; (j) a keyword construct is reached for a contextual keyword only through a branch on the token's surroundings.", []),
 }
